@@ -49,6 +49,7 @@ func (s *State) clone() *State {
 }
 
 type VC struct {
+	loopEntryVals map[loopKey]map[*ssa.Phi]string
 	callArgVals   []ssa.Value // SSA arguments of the contracted call being applied (for provenance)
 	eng           *Engine
 	root          *ssa.Function
